@@ -482,6 +482,13 @@ func encVal(v px.Value) string {
 		return "(" + strings.Join(xs, " ") + ")"
 	case px.PuppetObject:
 		return "(o " + objName(v.PType()) + " " + encVal(v.InitHash()) + ")"
+	case *types.RuntimeValue:
+		// a Runtime value holds a Go value verbatim (a struct field that is itself an interface{})
+		if rv := reflect.ValueOf(v.Interface()); rv.IsValid() {
+			if dt := gtyOf(rv.Type()); dt != nil {
+				return "(rt " + dt.sexp().String() + " " + encGo(dt, rv) + ")"
+			}
+		}
 	}
 	if v == px.Undef {
 		return "(u)"
@@ -1014,6 +1021,9 @@ func backFaultClass(t *gty, v reflect.Value, text string) string {
 		return "plain-struct-hash"
 	case strings.Contains(text, "MakeSlice of non-slice type") && t.has("array"):
 		return "array-reflect-to"
+	case strings.Contains(text, "value of kind int to a reflect.Value of kind float64") && t.has("iface"):
+		// an interface{} holding a container of integers AND floats: the Go type inferred for it is []float64 / map[..]float64
+		return "iface-numeric-mix-fault"
 	}
 	return "fault"
 }
@@ -1579,7 +1589,7 @@ func structsInModel(t *gty) bool {
 		return true
 	}
 	for _, f := range t.fields {
-		if !structsInModel(f.t) || f.t.kind == "iface" || (f.anon && f.t.kind != "struct") {
+		if !structsInModel(f.t) || (f.anon && f.t.kind != "struct") {
 			return false
 		}
 		if f.tag != "" && !tagInModel(f.tag) {
@@ -1618,6 +1628,25 @@ func promotedNames(t *gty) []string {
 		}
 	}
 	return ns
+}
+
+// ifaceFieldsInModel: every struct field that is itself an interface{} — in every struct value inside v that is wrapped as an
+// object — holds nil or a value whose dynamic type is a struct-free type term (no struct, no pointer to one: those are objects
+// when their type happens to be registered); the model keeps it verbatim in a Runtime value
+func ifaceFieldsInModel(t *gty, v reflect.Value) bool {
+	ok := true
+	walkStructs(t, v, func(st *gty, sv reflect.Value) {
+		for i, f := range st.fields {
+			if f.t.kind != "iface" || sv.Field(i).IsNil() {
+				continue
+			}
+			dt := gtyOf(sv.Field(i).Elem().Type())
+			if dt == nil || dt.has("struct") || dt.kind == "iface" {
+				ok = false
+			}
+		}
+	})
+	return ok
 }
 
 // attrFields: the fields that become attributes of the derived object type — those of the embedded parent (first field), then the own
@@ -1952,6 +1981,19 @@ func genVal(r *rand.Rand, t *gty, mode int, depth int) string {
 			return "nil"
 		}
 		var dt *gty
+		if richIface > 0 && r.Intn(2) == 0 {
+			// inside a struct field that is itself an interface{} (kept verbatim in a Runtime value): any dynamic type
+			richIface--
+			defer func() { richIface++ }()
+			for dt == nil || dt.kind == "iface" {
+				dt = randType(r, 1+r.Intn(2), false)
+			}
+			m := mode
+			if r.Intn(4) == 0 {
+				m = 1 // typed nils
+			}
+			return "(i " + dt.sexp().String() + " " + genVal(r, dt, m, depth) + ")"
+		}
 		switch r.Intn(8) {
 		case 0, 1:
 			dt = &gty{kind: "int", w: 64}
@@ -2033,11 +2075,40 @@ func genVal(r *rand.Rand, t *gty, mode int, depth int) string {
 			xs = append(xs, "nil")
 		case mode == 5:
 			xs = append(xs, genVal(r, f.t, 3, depth+1))
+		case f.t.kind == "iface":
+			richIface = 2
+			xs = append(xs, genVal(r, f.t, mode, depth+1))
+			richIface = 0
 		default:
 			xs = append(xs, genVal(r, f.t, mode, depth+1))
 		}
 	}
 	return "(" + strings.Join(xs, " ") + ")"
+}
+
+// richIface > 0 while the value of a struct field of type interface{} is generated: the remaining nesting budget of dynamic
+// types that are not scalars
+var richIface int
+
+// dataTerms: JSON-like data for an interface{} — nil, int64, float64, string, bool, []interface{} and map[string]interface{}
+// of them (nil and empty at every nesting), nested to the given depth; plus typed containers ([]string, []int, map[string]string)
+func dataTerms(depth int) []string {
+	leaves := []string{"nil", "(i (int 64) 1)", "(i (int 64) -2)", "(i (float 64) 4609434218613702656)", "(i string x61)", "(i string x)", "(i bool t)"}
+	if depth == 0 {
+		return leaves
+	}
+	sub := dataTerms(depth - 1)
+	out := append([]string{}, leaves...)
+	out = append(out, "(i (slice iface) nil)", "(i (slice iface) (s))", "(i (map string iface) nil)", "(i (map string iface) (m))",
+		"(i (slice string) (s x61 x62))", "(i (slice string) nil)", "(i (slice (int 0)) (s 1 2))", "(i (slice (int 0)) nil)",
+		"(i (map string string) (m (x61 x62)))", "(i (map string string) nil)", "(i (slice (int 64)) (s 1))", "(i (int 0) 7)",
+		"(i (slice (uint 8)) (s 1 2))", "(i (ptr (int 64)) (p 5))", "(i (map (int 64) iface) (m (1 (i string x61))))")
+	for i, a := range sub {
+		out = append(out, "(i (slice iface) (s "+a+"))", "(i (map string iface) (m (x6b "+a+")))")
+		b := sub[(i*7+3)%len(sub)]
+		out = append(out, "(i (slice iface) (s "+a+" "+b+"))", "(i (map string iface) (m (x61 "+a+") (x62 "+b+")))")
+	}
+	return out
 }
 
 // tagDefault picks a default that can be declared in a tag for a field of type t: (literal, go-value term).
@@ -2276,6 +2347,12 @@ func gen(g *core.G) {
 			pre := "@"
 			if inModel(t) {
 				pre = ""
+				if t.has("iface") {
+					// value-dependent: what the interface{} fields hold
+					if e, err := sx.Parse(v); err != nil || len(e) != 1 || !ifaceFieldsInModel(t, build(t, e[0])) {
+						pre = "@"
+					}
+				}
 			}
 			g.Emit(pre + "refl " + t.sexp().String() + " " + v)
 			// the three implementation-only variants below read only the tag items name / value
@@ -2495,6 +2572,37 @@ func gen(g *core.G) {
 		pbase := &gty{kind: "ptr", elem: &gty{kind: "struct", fields: []gfield{{name: "PA", t: i8}}}}
 		emit(&gty{kind: "struct", fields: []gfield{{name: "Base", anon: true, t: pbase}, {name: "B", t: str}}}, "(st (p (st 5)) x61)")
 		emit(&gty{kind: "struct", fields: []gfield{{name: "Base", anon: true, t: pbase}, {name: "B", t: str}}}, "(st nil x61)")
+	}
+	// a struct field that is itself an interface{} (a Runtime value): every scalar type and boundary value, containers, typed nils
+	{
+		S := &gty{kind: "struct", fields: []gfield{{name: "A", t: &gty{kind: "iface"}}, {name: "B", t: &gty{kind: "string"}}}}
+		emit(S, "(st nil x)")
+		for _, e := range leafTypes() {
+			es := e.sexp().String()
+			emit(S, "(st (i (slice "+es+") nil) x)")
+			emit(S, "(st (i (ptr "+es+") nil) x61)")
+			emit(S, "(st (i (map string "+es+") nil) x61)")
+			for _, v := range boundary(e) {
+				emit(S, "(st (i "+es+" "+v+") x)")
+				emit(S, "(st (i (slice "+es+") (s "+v+")) x)")
+				emit(S, "(st (i (ptr "+es+") (p "+v+")) x61)")
+				emit(S, "(st (i (map string "+es+") (m (x6b "+v+"))) x61)")
+				emit(S, "(st (i (slice iface) (s (i "+es+" "+v+") nil)) x)")
+				emit(S, "(st (i (map string iface) (m (x6b (i "+es+" "+v+")))) x)")
+			}
+		}
+		for _, d := range dataTerms(1) {
+			emit(S, "(st "+d+" x)")
+		}
+	}
+	// interface{} holding containers through wrap's type switch (implementation only: the Go type that comes back is inferred
+	// from the pcore value's type): JSON-like data at the top, in a []interface{} and in a map[string]interface{}
+	for _, d := range dataTerms(2) {
+		g.Emit("@refl iface " + d)
+	}
+	for _, d := range dataTerms(1) {
+		g.Emit("@refl (slice iface) (s " + d + " (i bool f))")
+		g.Emit("@refl (map string iface) (m (x6b " + d + "))")
 	}
 	emit(&gty{kind: "iface"}, "nil")
 	emit(&gty{kind: "slice", elem: &gty{kind: "iface"}}, "(s (i (int 0) 1) (i string x61) nil)")
